@@ -7,7 +7,7 @@ buffers; CAST over the decoder.
 """
 from ..core import callee_of, callee_names, is_call_to, unwrap, dominating_edges
 from ..ranges import Ranges, canon
-from ..families import check_casts, bodies_of_fn
+from ..families import check_casts, bodies_of_fn, describe
 from ..wire import fmt_sig, error_blocks
 from ..etf import load_spec, dispatch_table, DEC, OWNED
 
@@ -233,6 +233,65 @@ def run(ctx):
              'at the position where the encoder writes f; constructor parameter->field map from the constructor body, read positions from the parser\'s data flow, write order from the encoder\'s success paths', floor=10)
     n_fo = check_field_order(ctx, 'C03.2-field-order')
     ctx.anchor(n_fo >= 10, 'parsers that build a structure through erltf::types::*::new with an encoder for it')
+
+    # what follows a compressed term: the remainder handed back must start where the zlib stream ended
+    ctx.rule('C03.4-compressed-remainder', 'parse_compressed returns as remainder the input advanced by exactly the bytes the inflater consumed: either the buffer given to the inflater sliced from total_in(), '
+             'or a reader the inflater advances byte-exactly (flate2::bufread); a buffering reader (flate2::read over a slice) drains the whole input, so the bytes after the term would vanish', floor=1)
+    from ..ranges import canon as _cn
+    PCB_ = P.B(DEC + 'parse_compressed')
+    if ctx.anchor(PCB_ is not None, DEC + 'parse_compressed'):
+        news = [(bb, t) for bb, t in PCB_.calls() if 'flate2' in (callee_of(t)[0] or '') and (callee_of(t)[0] or '').endswith('::new')]
+        n_cr = 0
+        for bb, j, st in PCB_.stmts():
+            if not (st['k'] == '=' and st['rv']['k'] == 'agg' and st['rv'].get('ak') == 'tuple' and len(st['rv']['ops']) == 2):
+                continue
+            if not (0 in PCB_.derived_locals([st['pl']['l']])):
+                continue
+            c = _cn(PCB_, st['rv']['ops'][0])
+            n_cr += 1
+            where = ctx.where(PCB_, ln=st['ln'])
+            txt = str(c)
+            if c[0] == 'call' and str(c[1]).endswith('::index'):
+                it = PCB_.blocks[c[2]]['t']
+                ro_ = PCB_.origin(it['args'][1])
+                rng = str(_cn(PCB_, it['args'][1]))
+                if ro_[0] == 'agg':
+                    rng += ' '.join(str(_cn(PCB_, o_)) + str(PCB_.origin(o_)) for o_ in ro_[1]['ops'])
+                same = news and _cn(PCB_, it['args'][0]) == _cn(PCB_, news[0][1]['args'][0])
+                if 'total_in' in rng and same:
+                    ctx.ok('C03.4-compressed-remainder', 'remainder', 'input of the inflater sliced from total_in()', where)
+                elif 'total_in' in rng:
+                    ctx.bad('C03.4-compressed-remainder', 'remainder', 'a buffer other than the one handed to the inflater is sliced by total_in()', where, key='PROV:%sparse_compressed:remainder-other-buffer' % DEC)
+                else:
+                    ctx.bad('C03.4-compressed-remainder', 'remainder', 'the remainder is a slice of the input that does not depend on how much the inflater consumed (%s)' % describe(PCB_, c), where,
+                            key='PROV:%sparse_compressed:remainder-not-consumed-count' % DEC)
+            elif news and any('flate2::zlib::read::' in (callee_of(t)[0] or '') or 'flate2::read::' in (callee_of(t)[0] or '') for bb2, t in news):
+                ctx.bad('C03.4-compressed-remainder', 'remainder', 'the remainder is taken from the reader given to flate2::read::ZlibDecoder, which reads ahead through its own buffer: everything after the zlib stream is consumed with it, '
+                        'so trailing bytes (or a following term) are reported as absent', where, key='PROV:%sparse_compressed:remainder-from-buffered-reader' % DEC)
+            elif news and any('bufread' in (callee_of(t)[0] or '') for bb2, t in news):
+                ctx.ok('C03.4-compressed-remainder', 'remainder', 'reader advanced byte-exactly by flate2::bufread', where)
+            else:
+                ctx.undecided('C03.4-compressed-remainder', 'remainder', 'provenance of the remainder not recognised: %s' % describe(PCB_, c), where)
+        ctx.anchor(n_cr >= 1, DEC + 'parse_compressed: the (remainder, term) result')
+
+    # floats: the text form accepts what the format can carry - zero and subnormals included
+    ctx.rule('C03.2-float-acceptance', 'no parser turns a float away (or rewrites it) by a classification that excludes values the format carries: is_normal / is_subnormal / classify are false for 0.0 and subnormals, '
+             'which FLOAT_EXT and NEW_FLOAT_EXT both carry; only the non-finite tests (is_finite / is_nan / is_infinite) are a legitimate filter', floor=0)
+    n_fl = 0
+    for q in sorted(ctx.F.bodies):
+        if not q.startswith(DEC):
+            continue
+        FB = P.B(q)
+        for bb, t in FB.calls():
+            nm = callee_of(t)[0] or ''
+            if nm.startswith('core::f64::<impl f64>::') or nm.startswith('std::f64::<impl f64>::') or nm.startswith('core::num::<impl f64>::'):
+                short = nm.rsplit('::', 1)[-1]
+                if short in ('is_normal', 'is_subnormal', 'classify'):
+                    n_fl += 1
+                    ctx.bad('C03.2-float-acceptance', '%s:%s' % (q.rsplit('::', 1)[-1], short), '%s decides about a decoded float with %s(): zero and subnormal values, which the format carries, fall on the other side of it' % (q.rsplit('::', 1)[-1], short),
+                            ctx.where(FB, bb), key='SHAPE:%s:float-%s' % (q.split('::{')[0], short))
+    if n_fl == 0:
+        ctx.ok('C03.2-float-acceptance', 'decoder', 'no is_normal / is_subnormal / classify on decoded floats')
 
 
 def read_order(PB):
